@@ -391,8 +391,16 @@ def _one(ctx, case, d, count_only=False):
         ret = err = None
         try:
             with audit:
+                verbose = (len(vs) + len(start) + (fault.get('j') or fault.get('k') or fault.get('n') or 0)) % 2 == 1
+                ctx.count('verbose:%s' % verbose)
                 try:
-                    ret = ds.update_file(remote, local)
+                    if verbose:             # same call, chatty configuration (its prints go to a sink)
+                        import contextlib
+                        import io
+                        with contextlib.redirect_stdout(io.StringIO()):
+                            ret = ds.update_file(remote, local, verbose=True)
+                    else:
+                        ret = ds.update_file(remote, local)
                 except Exception as e:      # noqa - every error kind is an outcome here
                     err = e
         finally:
